@@ -1,6 +1,7 @@
 package main
 
 import (
+	"os"
 	"go/token"
 	"fmt"
 	"go/types"
@@ -110,6 +111,7 @@ func runC06(c *Ctx) {
 			args[i] = pat(v)
 		}
 		CheckCallReq(c, "pre-block-leaf", CallReq{ID: r.dist, Entry: CRB, CalleeDesc: name, Callee: func(fn *ssa.Function) bool { return fn != nil && FuncName(fn) == name }, Args: args,
+			CtxFn: func(desc string) bool { return c06NothingTouched(c, ge, desc) },
 			Clause: "after a revert every touched element is restored as unspent / unresolved / unrevised"}, cs)
 	}
 	// (3b) recorders keep the pre-block element
@@ -134,7 +136,22 @@ func runC06(c *Ctx) {
 					// the re-pointing loop must be completed before the first reversal: its header dominates the reversal
 					fi := ge.info(rb)
 					for _, h := range fi.loopsOf[b] {
-						if h.Dominates(firstReverse.Block()) && !fi.loopBody[h][firstReverse.Block()] {
+						if fi.loopBody[h][firstReverse.Block()] {
+							continue
+						}
+						if h.Dominates(firstReverse.Block()) {
+							ok = true
+							continue
+						}
+						// or the loop is skipped only for blocks that touch no existing element (nothing points into the slices)
+						descs := ge.condCtx(fi, h, nil)
+						all := len(descs) > 0
+						for _, d := range descs {
+							if !c06NothingTouched(c, ge, d) {
+								all = false
+							}
+						}
+						if all {
 							ok = true
 						}
 					}
@@ -372,6 +389,126 @@ func literalSetsCreated(v ssa.Value, recorded ssa.Value) bool {
 					if src, ok := ld.X.(*ssa.FieldAddr); ok && src.X == recorded && src.Field == fa.Field {
 						return true
 					}
+				}
+			}
+		}
+	}
+	return false
+}
+
+// c06NothingTouched: desc is "call pred(…) is false" for a module predicate that is true only when EVERY collection
+// through which (MidState).ApplyBlock can touch existing elements is empty (its transactions, its v2 transactions,
+// the supplement's expiring contracts — derived from the loops of ApplyBlock itself). Skipping the restoration of
+// leaves for such a block is legitimate: there is nothing to restore.
+func c06NothingTouched(c *Ctx, ge *GuardEngine, desc string) bool {
+	m := regexp.MustCompile(`^call ([\w/.()]+)\(.*\) is false$`).FindStringSubmatch(desc)
+	if m == nil {
+		return false
+	}
+	var pred *ssa.Function
+	for fn := range c.P.AllFuncs() {
+		if c.P.InModule(fn) && FuncName(fn) == m[1] && fnKind(fn) == "bool" {
+			pred = fn
+		}
+	}
+	ab := c.P.Func("consensus.(*MidState).ApplyBlock")
+	if pred == nil || ab == nil {
+		return false
+	}
+	// the collections ApplyBlock ranges over
+	need := map[string]bool{}
+	for _, b := range ab.Blocks {
+		if len(b.Instrs) == 0 {
+			continue
+		}
+		ifi, ok := b.Instrs[len(b.Instrs)-1].(*ssa.If)
+		if !ok {
+			continue
+		}
+		bo, ok := ifi.Cond.(*ssa.BinOp)
+		if !ok || bo.Op != token.LSS {
+			continue
+		}
+		if call, ok := bo.Y.(*ssa.Call); ok {
+			if bi, ok := call.Call.Value.(*ssa.Builtin); ok && bi.Name() == "len" && len(call.Call.Args) == 1 {
+				ge.pv.loadCtx = []ssa.Instruction{ifi}
+				a := ge.pv.Atom(call.Call.Args[0], nil)
+				// only loops whose body can modify an element that already exists (spend / revise / resolve), not
+				// loops that merely create elements
+				touches := false
+				for bb := range ge.info(ab).loopBody[b] {
+					for _, in := range bb.Instrs {
+						if cl, ok := in.(*ssa.Call); ok {
+							if g := cl.Call.StaticCallee(); g != nil && touchesExisting(c.P, g, 0) {
+								touches = true
+							}
+						}
+					}
+				}
+				if touches && !strings.Contains(a, "[*]") {
+					need[a] = true
+				}
+			}
+		}
+	}
+	if os.Getenv("SACHECK_DEBUG") != "" {
+		fmt.Fprintln(os.Stderr, "c06NothingTouched need:", need, "pred:", pred)
+	}
+	if len(need) < 2 {
+		return false
+	}
+	// every way the predicate returns true must establish emptiness of all of them
+	fd := &flagDNF{ge: ge, fi: ge.info(pred), memo: map[*ssa.BasicBlock][]conj{}, stack: map[*ssa.BasicBlock]bool{}}
+	var alts []conj
+	for _, r := range returnsOf(pred) {
+		if len(r.Results) != 1 {
+			return false
+		}
+		for _, pa := range fd.path(r.Block()) {
+			for _, t := range fd.truth(r.Results[0], true, map[*ssa.Phi]bool{}, r) {
+				alts = append(alts, append(append(conj{}, pa...), t...))
+			}
+		}
+	}
+	if os.Getenv("SACHECK_DEBUG") != "" {
+		for _, a := range alts {
+			fmt.Fprintln(os.Stderr, "  alt:", a.key())
+		}
+	}
+	if len(alts) == 0 {
+		return false
+	}
+	for _, alt := range alts {
+		for x := range need {
+			found := false
+			for _, a := range alt {
+				if a.Op == "==" && a.R == "const:0" && a.L == "len("+x+")" {
+					found = true
+				}
+			}
+			if !found {
+				return false
+			}
+		}
+	}
+	return true
+}
+
+// touchesExisting: fn (or a module callee, depth <= 3) marks an element spent or resolved or records a revision.
+func touchesExisting(p *Program, fn *ssa.Function, depth int) bool {
+	if fn == nil || !p.InModule(fn) || depth > 3 {
+		return false
+	}
+	for _, f := range []string{"Spent", "Resolved", "Revision"} {
+		if len(fieldStores(fn, f)) > 0 {
+			return true
+		}
+	}
+	for _, b := range fn.Blocks {
+		for _, in := range b.Instrs {
+			if cl, ok := in.(*ssa.Call); ok {
+				if g := cl.Call.StaticCallee(); g != nil && g != fn && touchesExisting(p, g, depth+1) {
+					return true
 				}
 			}
 		}
